@@ -205,7 +205,12 @@ def distribute_fully(e):
 WRONG = ["dup-and", "commute-followedby", "flip-not", "perturb-constant", "perturb-operator", "distribute-qualifier", "merge-observations",
          "drop-operand", "perturb-qualifier", "and-to-or", "absorb-wrong", "perturb-path-step"]
 STEP_SWAPS = {("i", "*"): [("k", "*"), ("i", 0)], ("k", "*"): [("i", "*")], ("i", 0): [("k", "0"), ("i", "*"), ("i", 1)], ("i", 1): [("k", "1"), ("i", "*"), ("i", 0)],
-              ("k", "0"): [("i", 0)], ("k", "1"): [("i", 1)]}
+              ("k", "0"): [("i", 0)], ("k", "1"): [("i", 1)],
+              # keys which differ in backslashes only (escaped in the text: none, one, two) are different keys
+              ("k", "back\\slash"): [("k", "backslash"), ("k", "back\\\\slash")], ("k", "backslash"): [("k", "back\\slash")], ("k", "back\\\\slash"): [("k", "back\\slash"), ("k", "backslash")],
+              ("k", "it's"): [("k", "its")], ("k", "a b"): [("k", "ab")],
+              # what follows an index step (also the falsy index 0) is part of the path like everything else
+              ("k", "inner"): [("k", "other")], ("k", "other"): [("k", "inner")]}
 
 
 def rewrite(rng, e, kind):
@@ -408,9 +413,12 @@ def shape_for(rng, kind):
         return ("obs", ("and", [("cmp", simple_path(rng, t), "IN", rng.random() < 0.3, c), simple_cmp(rng, t)]))
     if kind == "numeric-equal":
         return ("obs", ("cmp", simple_path(rng, t), rng.choice(["=", "<", ">="]), False, ("int", rng.randrange(0, 1000))))
+    if kind == "perturb-path-step" and rng.random() < 0.35:
+        path = (t, (("k", rng.choice(["x_prop", "name", "values"])), ("i", rng.choice([0, 0, 1, "*"])), ("k", rng.choice(["inner", "other"]))) + ((("k", "deeper"),) if rng.random() < 0.3 else ()))
+        return ("obs", ("cmp", path, rng.choice(["=", "!=", ">"]), False, ("int", 1)))
     if kind == "perturb-path-step":
         step = rng.choice(list(STEP_SWAPS))
-        path = (t, (("k", rng.choice(["x_prop", "name", "values"])), step) + ((("k", "inner"),) if rng.random() < 0.5 else ()))
+        path = (t, (("k", rng.choice(["x_prop", "name", "values"])), step) + ((("k", "inner"),) if rng.random() < 0.5 or step[0] == "k" and step[1] not in ("*", "0", "1") else ()))
         c = ("cmp", path, rng.choice(["=", "!=", ">", "MATCHES"]), rng.random() < 0.2, ("int", 1))
         if c[2] == "MATCHES":
             c = c[:4] + (("str", "^a"),)
